@@ -7,14 +7,14 @@ open Sio.Wire Sio.Admin
 /-
   Ops (one JSON object per line):
     {"op":"pyeq","a":J,"b":J}                               -> {"eq":bool}
-    {"op":"admit","auth":AUTH,"payload":{"some":J}|{"none":true}}
+    {"op":"admits","auth":AUTH,"payload":{"some":J}|{"none":true}}
         AUTH = {"missing":true} | {"val":J} | {"pred":PRED}
         PRED = "isNull" | "truthy" | {"const":b} | {"eq":J} | {"hasKey":[k,J]} | {"getKey":k}
              | {"not":PRED} | {"or":[PRED,PRED]}
         -> {"configure":"disabled|dict|list|pred"|{"exc":..}, "arg":J, "connect":bool|{"exc":..},
-            "admit":bool|null, "spec":bool|null}
-       `connect` is the line-by-line transcription `adminConnect`, `admit` the gate on the
-       classified configuration, `spec` the right-hand side of theorem `C18.admit_iff` evaluated
+            "admits":bool|null, "spec":bool|null}
+       `connect` is the line-by-line transcription `adminConnect`, `admits` the gate on the
+       classified configuration, `spec` the right-hand side of theorem `C18.admits_iff` evaluated
        directly; `arg` is what the handler receives for this payload (`present`).
     {"op":"registry","mode":[cp],"read_only":bool}           -> {"registered":[[cp]],"wrapped":[str]}
     {"op":"resolve","mode":[cp],"read_only":bool,"admin_ns":[cp],"ns":[cp],"ev":J,"args":[J],
@@ -65,7 +65,7 @@ def authOfJson (j : Json) : Except String AuthArg :=
 def cfgName : AuthCfg → String
   | .disabled => "disabled" | .dict _ => "dict" | .list _ => "list" | .pred _ => "pred"
 
-/-- the right-hand side of `C18.admit_iff`, computed without `admit` -/
+/-- the right-hand side of `C18.admits_iff`, computed without `admits` -/
 def spec : AuthCfg → J → Bool
   | .disabled, _ => true
   | .dict d, a => pyEq a (.obj d)
@@ -93,7 +93,7 @@ def step (_ : Unit) (j : Json) : Except String (Unit × Json) := do
     let a ← jOfJson (← j.getObjVal? "a")
     let b ← jOfJson (← j.getObjVal? "b")
     pure ((), Json.mkObj [("eq", Json.bool (pyEq a b))])
-  else if op == "admit" then
+  else if op == "admits" then
     let auth ← authOfJson (← j.getObjVal? "auth")
     let payload ← optJOfJson (← j.getObjVal? "payload")
     let arg := present payload
@@ -101,10 +101,10 @@ def step (_ : Unit) (j : Json) : Except String (Unit × Json) := do
       | .ok b => Json.bool b
       | .error e => excJson e
     let (cfgJ, admJ, specJ) : Json × Json × Json := match configure auth with
-      | .ok c => (Json.str (cfgName c), Json.bool (admit c arg), Json.bool (spec c arg))
+      | .ok c => (Json.str (cfgName c), Json.bool (admits c arg), Json.bool (spec c arg))
       | .error e => (excJson e, Json.null, Json.null)
     pure ((), Json.mkObj [("configure", cfgJ), ("arg", jToJson arg), ("connect", conn),
-                          ("admit", admJ), ("spec", specJ)])
+                          ("admits", admJ), ("spec", specJ)])
   else if op == "registry" then
     let mode ← strOfJson (← j.getObjVal? "mode")
     let ro ← (← j.getObjVal? "read_only").getBool?
